@@ -433,7 +433,12 @@ Definition builtin_globals (cc : core_classes) (m : addr) : list (name * value) 
     (B "MapIter", VClass (cc_map_iter cc)); (B "FilterIter", VClass (cc_filter_iter cc));
     (B "Tuple", VClass (cc_tuple cc)); (B "Vec", VClass (cc_vec cc));
     (B "Range", VClass (cc_range cc)); (B "HashMap", VClass (cc_hash_map cc));
-    (B "Fiber", VClass (cc_fiber cc)) ].
+    (B "Fiber", VClass (cc_fiber cc));
+    (B "Error", VClass (cc_error cc)); (B "RuntimeError", VClass (cc_runtime_error cc));
+    (B "AttributeError", VClass (cc_attribute_error cc)); (B "IndexError", VClass (cc_index_error cc));
+    (B "ImportError", VClass (cc_import_error cc)); (B "NameError", VClass (cc_name_error cc));
+    (B "TypeError", VClass (cc_type_error cc)); (B "ValueError", VClass (cc_value_error cc));
+    (B "StopIter", VClass (cc_stop_iter cc)) ].
 
 Definition install_builtins (s : store) (m : addr) : store :=
   set_module_globals s m
